@@ -1,5 +1,5 @@
 """C12 The Java back end agrees with the other execution routes: generated programs x levels, java run vs interpreter."""
-import hashlib, os
+import hashlib, re, os
 
 from .. import aldor, findings
 from .. import progcheck as PC
@@ -85,6 +85,10 @@ def check(tc, src, level, ev, h):
             for tag in ("NumberFormatException", "ClassCastException", "NullPointerException", "ArrayIndexOutOfBounds", "StackOverflowError"):
                 if tag in oj.text:
                     exc = tag
+            if not exc:
+                m = re.search(r'Exception in thread "main" ([\w.$]+)[^\n]*\n\s+at ([\w.$]+)\(', oj.text)
+                if m:
+                    exc = "%s@%s" % (m.group(1), m.group(2))
             what = "%s: java vs interpreter: exit class %s vs %s; first difference at line %d: interp %r, java %r %s" % (level, oj.cls, oi.cls, i, a, b, exc)
             return Fail({"kind": "mismatch", "level": level, "java_exception": exc, "src_sha": hashlib.sha256(src.encode()).hexdigest()[:16], "what": what}, case), nt
         return None, nt
